@@ -2,12 +2,14 @@ import CookModel.Driver.Num
 import CookModel.Driver.Convert
 import CookModel.Driver.Syntax
 import CookModel.Driver.Aisle
+import CookModel.Driver.Group
 /- Registry of line-protocol handlers. One line per area. -/
 namespace Cook.Driver
 def handlers : List (List String → Option String) := [
   handleNum,
   handleConvert,
   handleSyntax,
-  handleAisle
+  handleAisle,
+  handleGroup
 ]
 end Cook.Driver
